@@ -304,6 +304,7 @@ PROBES = [
 ]
 
 PRELUDE_EXTRA = (
+    "power = dagger = control = 0\n"
     "def deco(fn):\n    return fn\n"
     "@guppy\ndef g0(y: int) -> int:\n    return y\n"
     "@guppy\ndef g1(y: int) -> int:\n    return y + 1\n"
@@ -503,7 +504,102 @@ def tie_must_reject(ctx):
             ctx.violation(key, f"{name}: operand `{ill}` crashes the compiler ({rd}) on `{bad}`", rep)
 
 
+# ---------------------------------------------------------------------- expression clauses x expression contexts
+# Every expression-level clause probe as a pair of int-valued expressions (with clause / base), embedded in every
+# position an expression can occupy — in particular the ones that do not pass through `ExprBuilder` on the way to
+# the checker (comprehension element / iterable / filters, nested comprehensions, subscript-assignment targets,
+# with-items) — so a rejection or a handling that lives in only one stage of the pipeline is seen to be missing.
+EXPR_CLAUSES = [
+    ("Call", "keywords", "g0(x, y=1)", "g0(x)"),
+    ("Call", "keywords", "g0(y=x)", "g0(x)"),
+    ("Call", "keywords", "g0(x, **x)", "g0(x)"),
+    ("Call", "keywords", "g0(g0(x, y=1))", "g0(g0(x))"),
+    ("Call", "keywords", "int(x, base=3)", "int(x)"),
+    ("Call", "keywords", "comptime(1, k=2)", "comptime(1)"),
+    ("Call", "keywords", "S0(1, 2, c=3).a", "S0(1, 2).a"),
+    ("Call", "args", "g0(x)", "g0(1)"),
+    ("Call", "func", "g0(x)", "g1(x)"),
+    ("Starred", "value", "g0(*(x,))", "g0(x)"),
+    ("BinOp", "op", "x + 2", "x - 2"),
+    ("BinOp", "right", "x + 2", "x + 3"),
+    ("UnaryOp", "op", "-x", "+x"),
+    ("Subscript", "slice", "(x, 2)[0]", "(x, 2)[1]"),
+    ("Slice", "lower", "array(x, 2, 3)[0:2][0]", "array(x, 2, 3)[0]"),
+    ("Attribute", "attr", "S0(x, 2).a", "S0(x, 2).c"),
+    ("Constant", "value", "1", "2"),
+    ("Name", "id", "x", "x2"),
+    ("Lambda", "body", "(lambda: 1)()", "1"),
+    ("Dict", "keys", "len({1: 2})", "1"),
+    ("JoinedStr", "values", "len(f'{x}')", "1"),
+    ("Yield", "value", "(yield x)", "x"),
+]
+EXPR_CONTEXTS = {
+    "assign": "w = @\nreturn w",
+    "return": "return @",
+    "call-arg": "return g0(@)",
+    "if-test": "if @ > 0:\n    x = 1\nreturn x",
+    "for-iter": "for k in range(@):\n    x += 1\nreturn x",
+    "list-elt": "w = [@ for k in range(3)]\nreturn x",
+    "list-iter": "w = [k for k in range(@)]\nreturn x",
+    "list-filter": "w = [k for k in range(3) if @ > 0]\nreturn x",
+    "list-filter-2nd": "w = [k for k in range(3) if k > 0 if @ > 0]\nreturn x",
+    "nested-comp-filter": "w = [j for k in range(3) for j in range(k) if @ > j]\nreturn x",
+    "nested-comp-iter": "w = [j for k in range(3) for j in range(@)]\nreturn x",
+    "nested-comp-elt": "w = [[@ for j in range(2)] for k in range(3)]\nreturn x",
+    "array-elt": "w = array(@ for k in range(3))\nreturn x",
+    "subscript-target-index": "t0 = array(1, 2, 3)\nt0[@] = 5\nreturn x",
+    "subscript-target-value": "t0 = array(1, 2, 3)\nt0[0] = @\nreturn x",
+    "augassign-target-index": "t0 = array(1, 2, 3)\nt0[@] += 1\nreturn x",
+    "with-item": "with power(@):\n    pass\nreturn x",
+    "tuple-elt": "w = (1, @)\nreturn w[1]",
+    "ifexp-branch": "w = @ if b else 0\nreturn w",
+    "boolop-operand": "w = b and @ > 0\nreturn x",
+    "default-arg": "def inner(y: int = @) -> int:\n    return y\nreturn x",
+}
+
+
+def _ec_body(tmpl, e):
+    return "x2 = 7\n" + tmpl.replace("@", e)
+
+
+def tie_expr_contexts(ctx):
+    rng = ctx.rng
+    names = list(EXPR_CONTEXTS)
+    keys = sorted({(k, f) for k, f, _w, _b in EXPR_CLAUSES})
+    model = dict(zip(keys, ctx.driver("C32", [f"disp {k} {f}" for k, f in keys])))
+    base_ok = {}
+    for k, f, w, b in EXPR_CLAUSES:
+        if ctx.quick and (k, f) != ("Call", "keywords"):
+            cs = ["assign", "list-filter"] + rng.sample(names, 2)
+        else:
+            cs = names
+        for c in dict.fromkeys(cs):
+            tmpl = EXPR_CONTEXTS[c]
+            bb, wb = _ec_body(tmpl, b), _ec_body(tmpl, w)
+            if bb not in base_ok:
+                base_ok[bb] = _compile(bb)
+            bo, bd = base_ok[bb]
+            if bo != "ok":
+                ctx.count(["exprctx", k, f, c, w], nontrivial=False, kind=f"exprctx:{c}:vacuous")
+                continue
+            wo, wd = _compile(wb)
+            real = {"user": "rejected", "ok": ("same" if wd == bd else "differs")}.get(wo, wo)
+            m = model[(k, f)].split(" ")[0]
+            ctx.count(["exprctx", k, f, c, w], nontrivial=True, kind=f"exprctx:{c}:{real}")
+            rep = {"kind": k, "field": f, "with": wb, "base": bb, "context": "expr:" + c, "real": real, "detail": wd if wo != "ok" else "", "model": m}
+            key = f"exprctx:{k}.{f}:{c}:{w!r}"
+            if real == "same":
+                ctx.violation(key, f"{k}.{f} in position `{c}` is accepted and silently dropped: `{w}` lowers like `{b}` in\n{wb}", rep)
+            elif real == "crash":
+                ctx.violation(key, f"{k}.{f} in position `{c}`: the compiler crashes ({wd}) on\n{wb}", rep)
+            if m in ("rejected", "nodeRejected", "unreachable") and real not in ("rejected", "pysyntax"):
+                ctx.broke(f"static table says {k}.{f} is {m} but in position `{c}` the real compiler gives `{real}` on `{w}`")
+
+
 def tie(ctx):
+    import guppylang
+
+    guppylang.enable_experimental_features()   # lists, modifiers: otherwise those positions are unreachable
     rng = ctx.rng
     cases = []
     corpus = os.path.join(vlib.VERIF, "corpus", "c32")
@@ -550,6 +646,7 @@ def tie(ctx):
     if not getattr(ctx, "_c32_mr_done", False):
         ctx._c32_mr_done = True
         tie_must_reject(ctx)
+        tie_expr_contexts(ctx)
 
 
 def search(ctx, why):
